@@ -7,9 +7,14 @@ that object's state.  Not part of the proved core.
 
 `<val>` = `none` | integer | `(l <int> ...)`; an absent payload slot prints `-`.  The last argument
 lists the notification names the harness compares; they must be names the entry posts.
+
+  (both <run line or (skip)> (follow ...))  → (both <its output> <output of M-Follow, Drivers/Follow.lean>)
+    the same operation seen by both models: the object's own notifications, and the components of the layer
+    that re-post it as `Component.BaseGlyphDataChanged`
 -/
 import DefconModel.Util.SExp
 import DefconModel.SettersCatalogue
+import DefconModel.Drivers.Follow
 
 namespace DefconModel
 namespace Setters
@@ -57,7 +62,7 @@ def encStatus : Status → SExp
 def encStore (s : Store) : SExp :=
   tagged "set" ((s.filter (fun p => p.2 ≠ .none)).map (fun p => .list [.str p.1, encVal p.2]))
 
-def driverStep (u : Unit) (line : SExp) : Unit × SExp :=
+def driverRun (u : Unit) (line : SExp) : Unit × SExp :=
   match line with
   | .list [.atom "run", .str id, .str key, .list args, .list fields, .list names] =>
     match findEntry id, args.mapM parseVal, fields.mapM parseField, names.mapM asStr? with
@@ -72,6 +77,11 @@ def driverStep (u : Unit) (line : SExp) : Unit × SExp :=
     | _, _, _, _ => (u, .atom "bad-op")
   | .list [.atom "skip"] => (u, .list [.atom "skip"])
   | _ => (u, .atom "bad-op")
+
+def driverStep (u : Unit) (line : SExp) : Unit × SExp :=
+  match line with
+  | .list [.atom "both", l, f] => (u, .list [.atom "both", (driverRun u l).2, Follow.driverLine f])
+  | l => driverRun u l
 
 end Setters
 end DefconModel
